@@ -917,7 +917,8 @@ def rule_no_module_memo(model):
 
 
 RULES = [rule_memo_reset, rule_no_module_memo, rule_inplace_accumulators,
-         rule_memo_immutable, rule_hidden_state, rule_recook, rule_getstate, rule_file,
+         rule_memo_immutable, rule_hidden_state, rule_recook, rule_getstate,
+         (lambda f: (lambda model: f(model.inlined_view())))(rule_file),
          rule_caller_data, rule_defaults, rule_munge, rule_one_shot]
 EXPLANATION = (
     'Enumeration of attribute / item stores and container mutations in '
